@@ -367,6 +367,59 @@ func c04StackLimits(w *fw.W, idx int) {
 		w.Max("max_height_seen", int64(m.maxHeight))
 		w.Count("push_events", m.pushes)
 
+		// operator towers: special operators nested in each other's TAIL position (else-if
+		// chains, let in let, progn in progn, cond in cond, mixed), whose other sub-forms
+		// push nothing, so the stack is exactly full when the next operator is entered
+		for _, shape := range []string{"if", "let", "progn", "cond", "let*", "mixed"} {
+			d := lim + r.Range(-2, 3)
+			if d < 1 {
+				d = 1
+			}
+			tower := "'done"
+			for i := 0; i < d; i++ {
+				sh := shape
+				if sh == "mixed" {
+					sh = fw.Pick(r, []string{"if", "let", "progn", "cond", "let*"})
+				}
+				switch sh {
+				case "if":
+					if r.Bool() {
+						tower = "(if true " + tower + " 0)"
+					} else {
+						tower = "(if false 0 " + tower + ")"
+					}
+				case "let":
+					tower = "(let ((a 1)) " + tower + ")"
+				case "let*":
+					tower = "(let* ((a 1) (b 2)) " + tower + ")"
+				case "progn":
+					tower = "(progn 1 " + tower + ")"
+				default:
+					tower = "(cond (false 0) (true " + tower + "))"
+				}
+			}
+			src3 := "(or (ignore-errors " + tower + ") 'caught)\n"
+			m3 := &c04Mon{}
+			c04Cur = m3
+			r3 := rt.New(rt.Opts{MaxPhys: lim})
+			t3 := r3.Run("c04", src3)
+			c04Cur = nil
+			w.Eval(1)
+			if m3.maxHeight > lim {
+				w.Violation("stack-exceeds-physical-maximum:operator-tower", fmt.Sprintf("MaxHeightPhysical=%d but the stack reached %d frames in a tower of %d %s operators", lim, m3.maxHeight, d, shape), src3)
+				return
+			}
+			if t3.Value == "'done" && m3.maxHeight < d {
+				w.Violation("operator-tower-ran-without-frames", fmt.Sprintf("a tower of %d %s operators completed but the stack never held more than %d frames", d, shape, m3.maxHeight), src3)
+				return
+			}
+			if t3.Value != "'done" && t3.Value != "'caught" {
+				w.Violation("stack-limit-not-catchable:operator-tower", fmt.Sprintf("MaxHeightPhysical=%d tower of %d: %s %s", lim, d, t3.Outcome(), t3.Msg), src3)
+				return
+			}
+			w.CoverKey(fmt.Sprintf("tower|%s|lim=%d|%s", shape, lim, t3.Value))
+		}
+
 		// eval nesting: nested identity calls at height zero
 		nest := lim + r.Range(-3, 4)
 		if nest < 1 {
